@@ -2,6 +2,7 @@ import LapyVerif.Props.C05
 import LapyVerif.Props.C05b
 import LapyVerif.Props.C01
 import LapyVerif.Bridge.Fem
+import LapyVerif.Bridge.Poisson
 /- axiom audit of C05 -/
 #print axioms LapyVerif.Props.C05.dirichlet_exact
 #print axioms LapyVerif.Props.C05.interior_eq
@@ -24,3 +25,10 @@ import LapyVerif.Bridge.Fem
 #print axioms LapyVerif.Props.C05.balancedAt_iff
 #print axioms LapyVerif.Props.C05.balancedAt_of_interior
 #print axioms LapyVerif.Props.C05.balancedAt_of_closed
+#print axioms LapyVerif.Bridge.free_idx
+#print axioms LapyVerif.Bridge.poisson_system
+#print axioms LapyVerif.Bridge.poisson_result
+#print axioms LapyVerif.Bridge.poisson_run
+#print axioms LapyVerif.Bridge.poisson_system_neumann
+#print axioms LapyVerif.Bridge.poisson_result_neumann
+#print axioms LapyVerif.Bridge.poisson_format
